@@ -481,5 +481,11 @@ def stop_job(draw):
         kw["draw_iid_live"] = False
     labels = ["sampler:ins"] + ["criterion:" + c for c in names] + \
         [f"n_criteria:{k}", "check:" + kw.get("check_criteria", "any")]
+    if model["name"] == "gauss_uniform" and draw(st.integers(0, 3)) == 0:
+        # unnormalised likelihood: a constant offset of the log-likelihood
+        # must not change any criterion except through logZ itself
+        model = dict(model, offset=draw(st.sampled_from(
+            [-800.0, -3000.0, 500.0])))
+        labels.append("loglikelihood-offset:%g" % model["offset"])
     return {"model": model, "ins": True, "kwargs": kw, "kills": [],
             "labels": labels}
